@@ -57,6 +57,48 @@ def interesting_floats(rng, n):
     return out
 
 
+def exact_lg(x):
+    """floor(log10|x|), exactly"""
+    from fractions import Fraction
+    f = Fraction(abs(x))
+    k = int(math.floor(math.log10(abs(x))))
+    while Fraction(10) ** k > f:
+        k -= 1
+    while Fraction(10) ** (k + 1) <= f:
+        k += 1
+    return k
+
+
+def sci_inputs(rng, n):
+    """(x, decimal digits): random bit patterns, subnormals, neighbours of powers of ten, of the largest double, of d-digit decimals"""
+    out = [(1.04e-322, 1), (1.0000000000000001e23, 15), (1.7976931348623157e308, 2), (1.7976931348623157e308, 16), (5e-324, 0),
+           (5e-324, 3), (9.5, 0), (0.95, 1), (9.9996, 3), (1e23, 0), (1e22, 2), (2.2250738585072014e-308, 5), (2.225073858507201e-308, 14)]
+    while len(out) < n:
+        k = rng.random()
+        d = rng.choice([0, 1, 2, 3, 5, 8, 12, 14, 15, 16, 17, rng.randint(0, 20)])
+        if k < 0.2:
+            x = b2f(rng.getrandbits(64))
+        elif k < 0.35:
+            x = rng.randint(1, 2 ** rng.randint(1, 52)) * 5e-324
+        elif k < 0.6:
+            x = float("1e%d" % rng.randint(-323, 308))
+            for _ in range(rng.choice([0, 1, 1, 2, 3, 7, 40, 400])):
+                x = math.nextafter(x, rng.choice([0.0, math.inf]))
+        elif k < 0.7:
+            x = 1.7976931348623157e308
+            for _ in range(rng.randint(0, 5)):
+                x = math.nextafter(x, 0.0)
+            x *= rng.choice([1.0, 0.99, 0.5])
+        else:
+            dd = rng.randint(0, 17)
+            x = float("%d.%se%d" % (rng.randint(1, 9), "".join(rng.choice("0599") for _ in range(dd)) + rng.choice(["", "5", "49999", "50001"]), rng.randint(-320, 307)))
+            d = rng.choice([dd, dd, max(dd - 1, 0), d])
+        if x != x or abs(x) == math.inf:
+            continue
+        out.append((x * rng.choice([1, 1, -1]), d))
+    return out
+
+
 def cases(tier, rng):
     """yield (arg, expected, description)"""
     maxlen = 3 if tier == "quick" else 4
@@ -91,13 +133,25 @@ def cases(tier, rng):
         for d in ([0, 1, 2, 4] if tier == "quick" else range(0, 9)):
             yield [2, b, d, 1], "{:.{d}F}".format(round(x, d), d=d), "fmtF"
             yield [3, b, d, 1], "{:.{d}E}".format(x, d=d), "fmtE-direct"
-            if x != 0 and abs(x) > 1e-290:
-                try:
-                    comp = "{:.{d}E}".format(round(x, d - int(math.floor(math.log10(abs(x))))), d=d)
-                except OverflowError:
-                    continue   # round() overflows next to the largest double: outside the domain (DESIGN 8.4)
-                yield [3, b, d, 1], comp, "fmtE-composite"
         yield [2, b, 3, 0], "{:.3f}".format(round(x, 3)), "fmtF"
+    # float.__round__ and the E branch of FloatField._textual_write (round, then format): boundary-heavy
+    for x, d in sci_inputs(rng, 2500 if tier == "quick" else 120000):
+        b = f2b(x)
+        nd = rng.choice([d, -d, rng.randint(-330, 340)])
+        try:
+            r = [f2b(round(x, nd))]
+        except OverflowError:
+            r = []
+        yield [18, b, nd], r, "round"
+        if x != 0 and x == x and abs(x) != math.inf:
+            lg = int(math.floor(math.log10(abs(x))))
+            if lg != exact_lg(x):
+                continue   # the C library's log10 rounded up to an integer just below a power of ten: not modelled (DESIGN, trusted base)
+            try:
+                comp = ["{:.{d}E}".format(round(x, d - lg), d=d)]
+            except OverflowError:
+                comp = []
+            yield [19, b, d, 1], comp, "fmtE-composite"
     for z in [0, 1, -1, 9, 10, -10, 99, 100, 12345678901234567890, -(10 ** 30)] + [rng.randint(-10 ** 12, 10 ** 12) for _ in range(200)]:
         yield [7, z], str(z), "str(int)"
     # split / replace
